@@ -481,7 +481,7 @@ func (env *SpecEnv) place(e ast.Expr) *Place {
 		}
 		for i := 0; i < stt.NumFields(); i++ {
 			if stt.Field(i).Name() == x.Sel.Name {
-				return &Place{Root: base.Root, Addr: base.Addr, Path: joinPath(base.Path, x.Sel.Name), Cur: stt.Field(i).Type()}
+				return &Place{Root: base.Root, Addr: base.Addr, Path: joinPath(base.Path, x.Sel.Name), Cur: stt.Field(i).Type(), Local: base.Local}
 			}
 		}
 		// promoted through embedded fields
@@ -491,7 +491,7 @@ func (env *SpecEnv) place(e ast.Expr) *Place {
 				if es, ok := f.Type().Underlying().(*types.Struct); ok {
 					for j := 0; j < es.NumFields(); j++ {
 						if es.Field(j).Name() == x.Sel.Name {
-							return &Place{Root: base.Root, Addr: base.Addr, Path: joinPath(joinPath(base.Path, f.Name()), x.Sel.Name), Cur: es.Field(j).Type()}
+							return &Place{Root: base.Root, Addr: base.Addr, Path: joinPath(joinPath(base.Path, f.Name()), x.Sel.Name), Cur: es.Field(j).Type(), Local: base.Local}
 						}
 					}
 				}
@@ -589,7 +589,7 @@ func (env *SpecEnv) index(x *ast.IndexExpr) SVal {
 	if id, ok := x.X.(*ast.Ident); ok && strings.HasPrefix(id.Name, "ghost_") {
 		g := "#" + id.Name[6:]
 		arr := vc.get(env.state(), g)
-		return sInt(sel(arr, env.expr(x.Index).t()))
+		return sInt(vc.sel(arr, env.expr(x.Index).t()))
 	}
 	bv := env.expr(x.X)
 	idx := env.expr(x.Index).t()
@@ -603,7 +603,7 @@ func (env *SpecEnv) index(x *ast.IndexExpr) SVal {
 	case *types.Basic:
 		if isString(bv.T) {
 			vc.regFam("E$uint8", "Int")
-			return SVal{T: types.Typ[types.Uint8], C: []Term{sel(vc.get(env.state(), "E$uint8"), add(bv.C[0], idx))}}
+			return SVal{T: types.Typ[types.Uint8], C: []Term{vc.sel(vc.get(env.state(), "E$uint8"), add(bv.C[0], idx))}}
 		}
 	case *types.Pointer:
 		if at, ok := u.Elem().Underlying().(*types.Array); ok {
@@ -953,17 +953,17 @@ func (env *SpecEnv) callExpr(x *ast.CallExpr) SVal {
 		return sInt(sx("-", vc.get(env.cur, "#outlen"), vc.get(env.old, "#outlen")))
 	case "written":
 		// k-th byte written by this call
-		return sInt(sel(vc.get(env.cur, "#out"), sx("+", vc.get(env.old, "#outlen"), arg(0).t())))
+		return sInt(vc.sel(vc.get(env.cur, "#out"), add(vc.get(env.old, "#outlen"), arg(0).t())))
 	case "wfailed":
 		return sBool(sx(">", vc.get(env.cur, "#wfails"), vc.get(env.old, "#wfails")))
 	case "nevents":
 		return sInt(sx("-", vc.get(env.cur, "#evn"), vc.get(env.old, "#evn")))
 	case "evkind", "evint", "evaux", "evlen":
 		g := map[string]string{"evkind": "#evk", "evint": "#eva", "evaux": "#evb", "evlen": "#evl"}[name]
-		return sInt(sel(vc.get(env.cur, g), sx("+", vc.get(env.old, "#evn"), arg(0).t())))
+		return sInt(vc.sel(vc.get(env.cur, g), add(vc.get(env.old, "#evn"), arg(0).t())))
 	case "evbyte":
 		// j-th byte of the string payload of the k-th event of this call
-		return sInt(sel(sel(vc.get(env.cur, "#evc"), sx("+", vc.get(env.old, "#evn"), arg(0).t())), arg(1).t()))
+		return sInt(sel(vc.sel(vc.get(env.cur, "#evc"), add(vc.get(env.old, "#evn"), arg(0).t())), arg(1).t()))
 	case "fresh":
 		// allocated by this call
 		v := arg(0)
@@ -1028,7 +1028,7 @@ func (env *SpecEnv) callExpr(x *ast.CallExpr) SVal {
 				var n int
 				fmt.Sscanf(id.Name[8:], "%d", &n)
 				for k := 0; k < n; k++ {
-					ts = append(ts, sel(vc.get(env.cur, "#out"), sx("+", vc.get(env.old, "#outlen"), itoa(int64(k)))))
+					ts = append(ts, vc.sel(vc.get(env.cur, "#out"), add(vc.get(env.old, "#outlen"), itoa(int64(k)))))
 				}
 				continue
 			}
